@@ -286,7 +286,7 @@ impl Tzif {
 
         if !times
             .last()
-            .is_some_and(|last| seconds.0 - last.0 <= MAX_OFFSET)
+            .is_some_and(|last| seconds.0.saturating_sub(last.0) <= MAX_OFFSET)
         {
             // The local time is beyond the available transition times, so the
             // time zone is resolved with the POSIX tz string.
@@ -298,11 +298,11 @@ impl Tzif {
         }
 
         let mut first = estimated_idx;
-        while first > 0 && seconds.0 - times[first - 1].0 <= MAX_OFFSET {
+        while first > 0 && seconds.0.saturating_sub(times[first - 1].0) <= MAX_OFFSET {
             first -= 1;
         }
         let mut last = estimated_idx;
-        while last < times.len() && times[last].0 - seconds.0 <= MAX_OFFSET {
+        while last < times.len() && times[last].0.saturating_sub(seconds.0) <= MAX_OFFSET {
             last += 1;
         }
 
@@ -317,7 +317,7 @@ impl Tzif {
         for idx in first..last {
             let initial_record = record_before(idx);
             let next_record = get_local_record(db, idx);
-            let diff = seconds.0 - times[idx].0;
+            let diff = seconds.0.saturating_sub(times[idx].0);
             if offset_range(initial_record.utoff.0, next_record.utoff.0).contains(&diff) {
                 return if initial_record.utoff < next_record.utoff {
                     Ok(LocalTimeRecordResult::Empty)
@@ -330,7 +330,7 @@ impl Tzif {
         // Otherwise it is read with the offset of the latest transition it is not before.
         for idx in (first..last).rev() {
             let next_record = get_local_record(db, idx);
-            if seconds.0 - times[idx].0 >= next_record.utoff.0 {
+            if seconds.0.saturating_sub(times[idx].0) >= next_record.utoff.0 {
                 return Ok(next_record.into());
             }
         }
